@@ -534,6 +534,35 @@ where
         }
     };
 
+    match open_and_move(env, redir, target_fd, xtrace).await {
+        Ok(exit_status) => {
+            let original = target_fd;
+            Ok((SavedFd { original, save }, exit_status))
+        }
+        Err(error) => {
+            // The target FD has not been modified, so the saved copy is no
+            // longer needed. Close it so that it does not leak.
+            if let Some(save) = save {
+                let _: Result<(), Errno> = env.system.close(save);
+            }
+            Err(error)
+        }
+    }
+}
+
+/// Opens the file for the redirection body and moves it to the target FD.
+///
+/// This is the fallible part of [`perform`] that runs after the original open
+/// file description at `target_fd` has been saved.
+async fn open_and_move<S>(
+    env: &mut Env<S>,
+    redir: &Redir,
+    target_fd: Fd,
+    xtrace: Option<&mut XTrace>,
+) -> Result<Option<ExitStatus>, Error>
+where
+    S: Runtime + 'static,
+{
     // Prepare an FD from the redirection body
     let (fd_spec, location, exit_status) = match &redir.body {
         RedirBody::Normal { operator, operand } => {
@@ -574,8 +603,7 @@ where
         let _: Result<(), Errno> = env.system.close(target_fd);
     }
 
-    let original = target_fd;
-    Ok((SavedFd { original, save }, exit_status))
+    Ok(exit_status)
 }
 
 /// `Env` wrapper for performing redirections.
